@@ -155,7 +155,10 @@ def _c2(ret: int, attr: int, params: int, base: int, dflt: int = 0, kind: int = 
 
 D2: dict[str, dict[str, str]] = {
     "c": dict({"k%d%d%d%d" % (r, t, p, b): _c2(r, t, p, b) for r in (0, 1) for t in (0, 1) for p in (0, 1) for b in (0, 1)},
-              **{"k0000d": _c2(0, 0, 0, 0, dflt=1), "k0000c": _c2(0, 0, 0, 0, kind=1), "k1000d": _c2(1, 0, 0, 0, dflt=1)}),
+              **{"k0000d": _c2(0, 0, 0, 0, dflt=1), "k0000c": _c2(0, 0, 0, 0, kind=1), "k1000d": _c2(1, 0, 0, 0, dflt=1),
+                 # export status only: the same definitions, with an __all__ that lists everything / leaves g and v out
+                 "k0000e": _c2(0, 0, 0, 0) + "__all__ = ['B1', 'B2', 'K', 'f', 'g', 'g2', 'conv', 'v']\n",
+                 "k0000f": _c2(0, 0, 0, 0) + "__all__ = ['B1', 'B2', 'K', 'f', 'g2', 'conv']\n"}),
     "b": {
         "star": "from c import *\n",
         "sub": "import c\nclass L(c.K):\n    def use(self) -> int:\n        return self.x + self.m()\n",
@@ -169,6 +172,7 @@ D2: dict[str, dict[str, str]] = {
         "ucall": "import b\nr: int = b.y\ns: int = b.h()\n",
         "udflt": "import b\nfrom b import conv\ndef t() -> int:\n    return b.g2()\ndef u() -> None:\n    conv(1)\n",
         "umeth": "import b\nimport c\nclass M:\n    def g(self) -> None:\n        b.y + c.f()\n",
+        "ustarg": "import b\nn: int = b.g(1)\nm: int = b.v\n",
     },
 }
 for _m, _vs in D2.items():
